@@ -46,6 +46,9 @@ struct proj_rtti : dyn_rtti {
     }
 };
 
+// ids that differ only above bit 31 (e.g. (module << 32) | serial): the inherited identity type_index
+struct wide_rtti : dyn_rtti {};
+
 // deferred ids: catalogs hold pointers to functions returning the id
 extern type_id g_deferred_id[64];
 template<int K>
@@ -98,6 +101,8 @@ struct thr : basic_policy<thr, dyn_rtti, fast_perfect_hash<thr>, vptr_vector<thr
 struct old : basic_policy<old, dyn_rtti, fast_perfect_hash<old>, vptr_vector<old>, basic_error_output<old>, backward_compatible_error_handler<old>> {};
 struct prj : basic_policy<prj, proj_rtti, fast_perfect_hash<prj>, vptr_vector<prj>, vectored_error<prj>> {};
 struct prjmap : basic_policy<prjmap, proj_rtti, vptr_map<prjmap>, vectored_error<prjmap>> {};
+struct wide : basic_policy<wide, wide_rtti, fast_perfect_hash<wide>, vptr_vector<wide>, vectored_error<wide>> {};
+struct widemap : basic_policy<widemap, wide_rtti, vptr_map<widemap>, vectored_error<widemap>> {};
 struct dfr : basic_policy<dfr, def_rtti, vptr_vector<dfr>, vectored_error<dfr>> {};
 struct dfrh : basic_policy<dfrh, def_rtti, fast_perfect_hash<dfrh>, vptr_vector<dfrh>, vectored_error<dfrh>> {};
 // derived from the stock policies the way users do it
